@@ -517,7 +517,7 @@ func startedByGo(f *ssa.Function) bool {
 func checkCancelledReturns(p *Prog, ru *Rule, fn *ssa.Function, ctxP *ssa.Parameter) {
 	mach := &Machine{
 		Fn:        fn,
-		MaxVisits: 3,
+		MaxVisits: 6, /* (a counted loop over a table of up to five rows ends within it) */
 		LocOf: func(addr ssa.Value) string {
 			if al, ok := addr.(*ssa.Alloc); ok {
 				return fmt.Sprintf("local@%p", al)
